@@ -128,6 +128,8 @@ const entryplus3Baggage uint64 = 8 + // fileid
 	16 + // name_handle
 	8 // pointer
 
+// start is the offset to (re)start at: 0 or a cookie handed out earlier,
+// i.e., the offset of the slot following an entry.
 // XXX inode locking order violated
 func Apply(dip *inode.Inode, op *fstxn.FsTxn, start uint64,
 	dircount uint64, maxcount uint64,
@@ -135,9 +137,6 @@ func Apply(dip *inode.Inode, op *fstxn.FsTxn, start uint64,
 	var eof bool = true
 	var ip *inode.Inode
 	var begin = uint64(start)
-	if begin != 0 {
-		begin += DIRENTSZ
-	}
 	// TODO: arbitrary estimate of constant XDR overhead
 	var n uint64 = uint64(64)
 	var dirbytes uint64 = uint64(0)
@@ -184,9 +183,6 @@ func ApplyEnts(dip *inode.Inode, op *fstxn.FsTxn, start uint64, count uint64,
 	f func(string, common.Inum, uint64)) bool {
 	var eof bool = true
 	var begin = uint64(start)
-	if begin != 0 {
-		begin += DIRENTSZ
-	}
 	// TODO: this is supposed to track the size of the XDR-encoded reply in
 	// bytes, and we somewhat arbitrarily use 64 as the constant overhead
 	var n uint64 = uint64(64)
